@@ -145,8 +145,8 @@ def evalBuiltin (name : String) (args : List Value) : Except String Value :=
       | .bool true :: _ => .ok .void
       | .bool false :: rest =>
         match rest with
-        | [] => .ok .failed
-        | .str _ _ :: _ => .ok .failed
+        | [] => .ok (.failed "assertion failed")
+        | .str s _ :: _ => .ok (.failed ("assertion failed: " ++ String.ofList s))
         | _ => .error "expected string"
       | _ => .error "expected boolean"
   | "sizeof" =>
